@@ -34,6 +34,7 @@ class Parser:
         self.the_environments = {}
         self.mathparser = mathparser.MathParser(self)
         self.unknowns = []
+        self.extracted = []
         self.latex = ''
 
         # used by expand_item():
@@ -89,7 +90,12 @@ class Parser:
         for e in mods.environs:
             self.the_environments[e.name] = e
         if mods.macros_latex:
+            # text flows extracted from definitions (e.g., \footnote)
+            # carry positions of that text: drop them
+            extracted = self.extracted
+            self.extracted = []
             self.parser_work(mods.macros_latex)
+            self.extracted = extracted
         return mods.inject_tokens
 
     #   scan and parse (expand) LaTeX string to tokens
@@ -141,6 +147,8 @@ class Parser:
         if define:
             toks = self.parser_work(define)
             main = utils.filter_set_toks(toks, 0, defs.LanguageToken)
+            # as the text: drop flows extracted from the definitions
+            self.extracted = []
         main += self.parser_work(latex)
 
         if extract:
